@@ -410,11 +410,11 @@ theorem xround_trip (XO : XOracles) (opts : DeserOpts) : ∀ (x : XDecl) (v : Py
     | dict kvs =>
       simp only [and_true_iff] at h
       obtain ⟨hdist, hall⟩ := h
-      have hpt : ∀ kv ∈ kvs, (∃ k, kv.1 = .str k) ∧ RTX XO { opts with keepUndefined := true } x kv.2 := by
+      have hpt : ∀ kv ∈ kvs, (∃ k, kv.1 = .str k) ∧ RTX XO opts x kv.2 := by
         intro kv hkv
         exact ⟨c05_strKeys_str kvs hdist kv hkv,
-          xround_trip XO { opts with keepUndefined := true } x kv.2 ((List.all_eq_true.mp hall) kv hkv)⟩
-      rcases RTX_pairs XO { opts with keepUndefined := true } x kvs hpt with ⟨r, g1, g2, g3, g4, g5⟩
+          xround_trip XO opts x kv.2 ((List.all_eq_true.mp hall) kv hkv)⟩
+      rcases RTX_pairs XO opts x kvs hpt with ⟨r, g1, g2, g3, g4, g5⟩
       have hrd : strKeysDistinct r = true := by rw [strKeysDistinct_keys r kvs g3]; exact hdist
       refine ⟨.dict r, ?_, by simp [isJson, g2], rfl, ?_, ?_⟩
       · simp only [serX, sMap, g1]
